@@ -111,7 +111,7 @@ func mkCheck(col *ev.Collector) func(Case) error {
 			col.Class("mysql-family/" + c.Flavour + "/" + sh)
 		}
 		if n > 0 {
-			col.NonTrivial(fmt.Sprintf("%d|%v|%v|%v|%s|%d|%d|%v", c.N, c.Role, c.FromE, c.ToE, c.Dialect, c.Mode, c.Names, c.Split) + c.Flavour + fmt.Sprint(c.DropSchema))
+			col.NonTrivial(fmt.Sprintf("%d|%v|%v|%v|%s|%d|%d|%v", c.N, c.Role, c.FromE, c.ToE, c.Dialect, c.Mode, c.Names, c.Split) + c.Flavour + fmt.Sprint(c.DropSchema, c.Cols))
 		}
 		col.Sample(c.Dialect+"/"+sh, c)
 		return err
@@ -184,6 +184,14 @@ func TestCheck(t *testing.T) {
 								}
 							}
 							c.Flavour = ""
+						}
+						// keys that take their columns with them
+						if d == "mysql" && mode == 0 && !c.Multi && len(c.FromE)+len(c.ToE) > 0 {
+							c.Cols = true
+							if !ev.Each(col, "exhaustive-keys-with-their-columns", c, check, known) {
+								return
+							}
+							c.Cols = false
 						}
 						if repointed(c) {
 							c.Names = 1
